@@ -10,7 +10,7 @@ check("C14", "model_checking",
       "variant universe of every program (16 skeletons, the shared prelude, SyltGen's pairwise-nesting universe): all legal choice functions "
       "over <= 6 sugar sites, every site toggled, uniform/strided/mixed patterns; every variant is compiled and TLC validates the recorded results "
       "(coverage of the re-derived universe, legality of every recorded choice, accepted, same parser tree, same Lua bytes; the `<!>` line number is "
-      "masked only for variants that move lines). Bounded: quick samples every 48th nesting pair; thorough takes all ~3000 expressions.",
+      "masked only for variants that move lines). Bounded: quick samples every 64th nesting pair; thorough takes all ~3000 expressions.",
       "Trusted: TLC, SyltSurface's site/legality definitions, surface.rs (renderer; strict: a choice it cannot honour is a tool error; the plain "
       "rendering is checked to be byte-identical with printer.rs), astdump, FNV digests. Not offered (said in the evidence): sugar for callees that "
       "are not names/field accesses, `->` with a callee containing a function literal, parentheses around function literals / std names / "
